@@ -268,6 +268,39 @@ def fam_cond_aux():
                                dict(tick=0.125, inits=list(ENV_INITS), framers=framers), dict(depth=d, main=names[d]))
 
 
+def fam_cond_aux_fork():
+    """fork f0 > {f1, f2} plus root f3; conditional aux on f0; the framer starts in the primary (f1) or the
+    NON-primary branch (f2), so truncating / restoring the outline must follow the active frame, not f0's own outline."""
+    names = ["f0", "f1", "f2", "f3"]
+    parents = (None, 0, 0, None)
+    ctxs = ("enter", "exit", "recur", "precur")
+    for kind in ("now", "repeat1", "repeat2", "never"):
+        for first in (None, "f2"):
+            for s in (0, 1, 2):
+                for t in ("f0", "f1", "f2", "f3", "me", None):
+                    for pos in (("before", "after") if s == 0 and t is not None else ("after",)):
+                        if t is None and s != 0:
+                            continue
+                        frames = []
+                        for i, nm in enumerate(names):
+                            items = recs(nm, ctxs)
+                            pre = []
+                            if t is not None and s == i:
+                                pre.append(("go", t, [E1]))
+                            if i == 0:
+                                a = ("auxif", "x", [E0])
+                                pre = [a] + pre if pos == "after" else pre + [a]
+                            items = items + pre + [("rec", "precur", nm + ".pz")]
+                            if i == 3:
+                                items.append(("go", "f2", [E1]))
+                            frames.append(dict(name=nm, over=names[parents[i]] if parents[i] is not None else None, items=items))
+                        fm = dict(name="m", schedule="active", frames=frames)
+                        if first:
+                            fm["first"] = first
+                        yield ("condaux-fork/%s/first-%s/go%s->%s/%s" % (kind, first, s, t, pos),
+                               dict(tick=0.125, inits=list(ENV_INITS), framers=[fm, aux_framer_ext("x", kind)]), dict(depth=0, main="f0"))
+
+
 def aux_framer_ext(name, kind):
     if kind == "repeat2":
         x1, x2 = name + "1", name + "2"
@@ -351,6 +384,25 @@ def fam_bids(js=(0, 1, 2, 3)):
                                     framers = [x, y] if decl == "xy" else [y, x]
                                     yield ("bids/%s%s/%s/%s/p%r/j%d/%s/%s" % (xo[0], yo[0], decl, ysched, yper, j, c1, sec),
                                            dict(tick=tick, inits=[], framers=framers), dict())
+
+
+def fam_selfbids():
+    """a framer bids on itself (me / own name / all) from its FIRST frame, i.e. inside the very run that processes
+    START, or from a later frame; the bid must survive that run and be the control it receives next."""
+    ctxs = ("enter", "exit", "recur")
+    for c in CONTROLS:
+        for tgt in ("me", "x", "all"):
+            for ctx in ("enter", "recur", "exit"):
+                for where in ("first", "second"):
+                    for decl in ("xy", "yx"):
+                        for period in (None, 0.25):
+                            b = ("bid", ctx, c, [tgt], period if c in ("start", "run", "ready") else None)
+                            x0 = recs("x0", ctxs) + ([b] if where == "first" else []) + [("go", "next", [("recurred", ">=", 2, False)])]
+                            x1 = recs("x1", ctxs) + ([b] if where == "second" else []) + [("go", "x0", [("recurred", ">=", 2, False)])]
+                            x = dict(name="x", schedule="active", frames=[dict(name="x0", items=x0), dict(name="x1", items=x1)])
+                            y = dict(name="y", schedule="active", frames=[dict(name="y0", items=recs("y0", ctxs))])
+                            yield ("selfbids/%s/%s/%s/%s/%s/p%s" % (c, tgt, ctx, where, decl, period),
+                                   dict(tick=0.125, inits=[], framers=[x, y] if decl == "xy" else [y, x]), dict())
 
 
 def fam_fiats(maxlen=3):
